@@ -81,7 +81,11 @@ def rnd_type(rng, depth):
             return gen.rule("dict", args=[gen.prim("str"), inner])
         return inner
     if k == "list":
-        return gen.rule("list", args=[rnd_type(rng, depth - 1)])
+        T = gen.rule("list", args=[rnd_type(rng, depth - 1)])
+        if rng.random() < 0.3:
+            # the same declaration spelled with an abstract container (the result is a list: "an instance that satisfies the abstract methods")
+            T["_abstract"] = rng.choice(["Sequence", "Iterable", "Collection", "MutableSequence"])
+        return T
     if k == "listc":
         return gen.rule("list", [gen.con(rng.choice(["max_length", "min_length"]), rng.choice([1, 2, 3]))] +
                         ([gen.con("unique_items", None)] if rng.random() < 0.4 else []), args=[rnd_type(rng, depth - 1)])
